@@ -114,7 +114,7 @@ def resolve(t):
 # ================================================================ grammar: values
 
 DOM_INT = [0, 1, 2, 3, 4, 5]
-DOM_STR = ["", "a", "ab", "b"]
+DOM_STR = ["", "a", "ab", "b", "it's", "gr\u00fc\u00dfe"]     # an apostrophe and non-ASCII letters: neither Debug nor the pattern text escapes them
 
 
 def gen_value(rng, t):
@@ -579,7 +579,12 @@ def emit_case(em, k, case):
     params = "".join(f", a{i}: {rust_ty(t)}" for i, t in enumerate(sig))
     ret = "NC" if case["ret_nc"] else "i32"
     em.emit(f"#[unimock(api={tname}Mock)]")
-    em.emit(f"pub trait {tname}{'<T: 0, U: 0 + std::fmt::Debug>'.replace('0', chr(39) + 'static') if gen else ''} {{")
+    # the bounds of the trait's type parameters are written inline or in a `where` clause (every other generic trait): the
+    # generated MockFn impl must carry them either way, since debug_inputs picks Debug / `?` by the bounds in scope
+    if gen and k % 2 == 1:
+        em.emit(f"pub trait {tname}<T, U> where T: 'static, U: 'static + std::fmt::Debug {{")
+    else:
+        em.emit(f"pub trait {tname}{'<T: 0, U: 0 + std::fmt::Debug>'.replace('0', chr(39) + 'static') if gen else ''} {{")
     em.emit(f"    fn m(&self{params}) -> {ret};")
     em.emit(f"    fn aux(&self) -> i32;")
     em.emit("}")
